@@ -6,7 +6,7 @@ import numpy as np
 from .core import np_gen
 
 LAYOUTS = ("C", "F", "moveaxis", "moveaxis_r", "T", "slice", "neg")
-VALS = ("normal", "deficient", "decay", "ints", "normal", "normal")
+VALS = ("normal", "deficient", "decay", "ints", "normal", "normal", "iso")
 
 
 def _values(g, shape, cplx, vals):
@@ -24,6 +24,13 @@ def _values(g, shape, cplx, vals):
 def make_core(g, r, m, n, r2, cplx=False, vals="normal", layout="C"):
     """A core of logical shape (r, m, n, r2) with the requested value class and memory layout."""
     shape = (r, m, n, r2)
+    if vals == "iso":
+        # an exactly (up to rounding) isometric core: all singular values of its unfoldings are tied at 1
+        z = g.standard_normal((max(r * m * n, r2), max(r * m * n, r2)))
+        if cplx:
+            z = z + 1j * g.standard_normal(z.shape)
+        q, _ = np.linalg.qr(z)
+        return relayout(np.ascontiguousarray(q[:r * m * n, :r2].reshape(shape)), layout)
     a = _values(g, shape, cplx, "normal" if vals in ("deficient", "decay") else vals)
     if vals == "deficient" and r2 >= 2:
         # right unfolding of rank < r2: make the last bond index a copy/combination of the others
